@@ -669,7 +669,7 @@ func TestVerif_C39(t *testing.T) {
 	type kd struct{ kind, mode int }
 	kinds := []kd{{c38KGCounter, 0}, {c38KPNCounter, 0}, {c38KFlag, 0}, {c38KLWW, c38LWWMain}, {c38KMV, 0}, {c38KORSet, 0}, {c38KORMap, 0},
 		{c38KORSet, 0}, {c38KORMap, 0}, {c38KMV, 0}, {c38KORSet, 0}, {c38KLWW, c38LWWBackward}, {c38KLWW, c38LWWSameTick}}
-	n := r.N(2200, 300000)
+	n := r.N(1600, 300000)
 	for i := 0; i < n; i++ {
 		k := kinds[i%len(kinds)]
 		c39Random(r, rng, k.kind, k.mode)
